@@ -258,42 +258,158 @@ def r14_2_3(ctx, g):
 
 
 def r14_4(ctx):
+    """find_path: one output record per requested path, in input order, each carrying the sequence of its own path.
+    Decided on the normal form of the entry function (helpers inlined, namedtuple records read as tuples): (a) every line of
+    a path file adds exactly one (path, sequence) pair — as two parallel lists or as one list of pairs — where the sequence
+    is extract_path of that same path; (b) every output loop walks those pairs in order and prints, per pair, the sequence,
+    preceded under --fasta by the header `>seq_<path>`."""
+    from ..core import detuple, desugar_ifexp, normal, resolve_expr
+    from .c09 import guards_of
+
     repo = ctx.repo
     mod = repo.module("gaftools.cli.find_path", "R14.4")
     run = None
-    for f in mod.funcs.values():
-        if any(isinstance(c, ast.Call) and isinstance(c.func, ast.Attribute) and c.func.attr == "extract_path" for c in walk_own(f.node)):
+    for f0 in mod.funcs.values():
+        f = detuple(repo, normal(repo, f0))
+        if any(isinstance(c, ast.Call) and isinstance(c.func, ast.Attribute) and c.func.attr == "extract_path" for c in walk_own(f.node)) and not repo.callers_of(f0):
             run = f
+    if run is None:
+        for f0 in mod.funcs.values():
+            f = detuple(repo, normal(repo, f0))
+            if any(isinstance(c, ast.Call) and isinstance(c.func, ast.Attribute) and c.func.attr == "extract_path" for c in walk_own(f.node)):
+                run = f
     if run is None:
         raise AnalysisError("R14.4", mod.relpath, "find_path does not call extract_path")
     ctx.analysed_func(run)
-    rd = [l for l in walk_own(run.node) if isinstance(l, ast.For) and not isinstance(l.iter, ast.Call)]
-    rd = [l for l in rd if any(isinstance(c, ast.Call) and isinstance(c.func, ast.Attribute) and c.func.attr == "extract_path" for c in ast.walk(l))]
+
+    def is_extract(e):
+        return isinstance(e, ast.Call) and isinstance(e.func, ast.Attribute) and e.func.attr == "extract_path" and e.args
+
+    # ---- (a) the input loop
+    rd = [l for l in walk_own(run.node) if isinstance(l, ast.For) and any(is_extract(c) for c in ast.walk(l)) and not any(isinstance(c, ast.Call) and isinstance(c.func, ast.Name) and c.func.id == "print" for c in ast.walk(l))]
+    if not rd:
+        # comprehension spelling: paths = [line.strip() for line in reader]; seqs = [g.extract_path(p) for p in paths]
+        comps = [st for st in walk_own(run.node) if isinstance(st, ast.Assign) and isinstance(st.value, ast.ListComp) and is_extract(st.value.elt) and len(st.value.generators) == 1]
+        for st in comps:
+            g_ = st.value.generators[0]
+            src = g_.iter
+            plain = isinstance(src, ast.Name) and norm(st.value.elt.args[0]) == norm(g_.target) and not g_.ifs
+            if plain:
+                ctx.holds("R14.4", run.where(st), f"one sequence per path: the sequences are computed over the path list `{src.id}` itself, element by element")
+            elif isinstance(src, ast.Call) and any(isinstance(a, ast.Name) for a in src.args) and norm(src.func) in ("dict.fromkeys", "set", "sorted", "frozenset", "reversed", "list", "tuple") and norm(src.func) not in ("list", "tuple"):
+                ctx.violated("R14.4", run.where(st), f"the sequences are computed over `{norm(src)}`, not over the path list itself: repeated (or reordered) paths make the list of sequences shorter / differently ordered than the list of paths they are paired with", key_of(run, f"seqs-over-copy:{norm(src)[:50]}"))
+            elif g_.ifs:
+                ctx.violated("R14.4", run.where(st), "paths are filtered before their sequence is extracted: the sequences no longer line up with the paths", key_of(run, "seqs-filtered"))
     ctx.require_count("R14.4", len(rd), 1, run.where(), "loop over the lines of the path file")
     loop = rd[0]
+    lv = norm(loop.target)
+    stripped_iter = isinstance(loop.iter, ast.Call) and norm(loop.iter.func) == "map" and loop.iter.args and norm(loop.iter.args[0]) in ("str.strip",)
+    path_texts = {lv} if stripped_iter else {f"{lv}.strip()"}
     paths = enum_paths(loop.body, rule="R14.4", where=run.where(loop))
     bad = None
+    lists = {}  # list name -> "path" | "seq" | "pair"
     for p in paths:
-        apps = {}
+        apps = []
+        local = {}
         for e in p.events:
-            if e.kind == "stmt" and isinstance(e.node, ast.Expr) and isinstance(e.node.value, ast.Call) and isinstance(e.node.value.func, ast.Attribute) and e.node.value.func.attr == "append":
-                k = norm(e.node.value.func.value)
-                apps[k] = apps.get(k, 0) + 1
-        if p.term not in ("fall", "continue") or sorted(apps.values()) != [1, 1]:
-            bad = (p, f"appends per line: {apps}")
-    ctx.check(bad is None, "R14.4", run.where(loop), "every input line appends exactly one path and one sequence (no line skipped)", key_of(run, f"per-line:{bad[1] if bad else ''}"), **({"path": bad[0].show(), "why": bad[1]} if bad else {}))
-    # the sequence is that of the line just read
-    seq_app = [c for c in ast.walk(loop) if isinstance(c, ast.Call) and isinstance(c.func, ast.Attribute) and c.func.attr == "append" and c.args and isinstance(c.args[0], ast.Call) and isinstance(c.args[0].func, ast.Attribute) and c.args[0].func.attr == "extract_path"]
-    ok = bool(seq_app) and norm(seq_app[0].args[0].args[0]) in (f"{[norm(c.func.value) for c in ast.walk(loop) if isinstance(c, ast.Call) and isinstance(c.func, ast.Attribute) and c.func.attr == 'append' and c is not seq_app[0]][0]}[-1]", f"{norm(loop.target)}.strip()")
-    ctx.check(ok, "R14.4", run.where(loop), "the sequence extracted belongs to the path read from the current line", key_of(run, "line-seq-pairing"))
-    outs = [l for l in walk_own(run.node) if isinstance(l, ast.For) and isinstance(l.iter, ast.Call) and norm(l.iter.func) == "zip"]
-    ok_out = len(outs) == 2
-    counts = []
-    for l in outs:
-        prints = [c for c in ast.walk(l) if isinstance(c, ast.Call) and isinstance(c.func, ast.Name) and c.func.id == "print"]
-        counts.append(len(prints))
-        ok_out = ok_out and not any(isinstance(x, (ast.If, ast.Continue, ast.Break)) for x in ast.walk(l))
-    ctx.check(ok_out and sorted(counts) == [1, 2], "R14.4", run.where(), "one output record per path, in input order (with --fasta a header line named after the path plus the sequence)", key_of(run, f"outputs:{counts}"), prints=counts)
-    fa = [c for l in outs for c in ast.walk(l) if isinstance(c, ast.JoinedStr)]
-    ok_name = any(norm(j).startswith("f'>seq_{") for j in fa)
-    ctx.check(ok_name, "R14.4", run.where(), "FASTA records are named seq_<node path>", key_of(run, "fasta-name"))
+            if e.kind != "stmt":
+                continue
+            st = e.node
+            if isinstance(st, ast.Assign) and len(st.targets) == 1 and isinstance(st.targets[0], ast.Name):
+                local[st.targets[0].id] = st.value
+            if isinstance(st, ast.Expr) and isinstance(st.value, ast.Call) and isinstance(st.value.func, ast.Attribute) and st.value.func.attr == "append" and st.value.args:
+                apps.append((norm(st.value.func.value), st.value.args[0]))
+        if p.term not in ("fall", "continue"):
+            bad = (p, f"the loop over the path file ends with {p.term} for some line")
+            break
+
+        def res(e, depth=0):
+            if isinstance(e, ast.Name) and e.id in local and depth < 3:
+                return res(local[e.id], depth + 1)
+            return e
+
+        last_path_list = None
+        per = {}
+        for lname, arg in apps:
+            a = res(arg)
+            kind = None
+            if isinstance(a, ast.Tuple) and len(a.elts) == 2:
+                p0, s0 = res(a.elts[0]), res(a.elts[1])
+                if norm(p0) in path_texts and is_extract(s0) and norm(res(s0.args[0])) in path_texts:
+                    kind = "pair"
+                else:
+                    bad = (p, f"a (path, sequence) pair `{norm(a)[:70]}` does not pair the line's path with the sequence extracted for that same path")
+            elif norm(a) in path_texts:
+                kind, last_path_list = "path", lname
+            elif is_extract(a):
+                src = norm(res(a.args[0]))
+                if src in path_texts or (last_path_list is not None and src == f"{last_path_list}[-1]"):
+                    kind = "seq"
+                else:
+                    bad = (p, f"the sequence appended is extract_path({src}), not that of the path read from the current line")
+            else:
+                bad = (p, f"`{lname}.append({norm(arg)[:50]})` is neither the path of the line nor its sequence")
+            if kind:
+                per[lname] = per.get(lname, 0) + 1
+                lists[lname] = kind
+        if bad:
+            break
+        if not per or any(v != 1 for v in per.values()) or (set(lists.values()) != {"pair"} and set(lists.values()) != {"path", "seq"}) or set(per) != set(lists):
+            bad = (p, f"appends per line: {per} (every line must add exactly one path and one sequence)")
+            break
+    ctx.check(bad is None, "R14.4", run.where(loop), "every line of the path file adds exactly one path and the sequence extracted for that same path (no line skipped or merged)", key_of(run, f"per-line:{bad[1] if bad else ''}"), **({"path": bad[0].show(), "why": bad[1]} if bad else {}))
+    if bad is not None:
+        return
+    # ---- (b) the output loops
+    plist = next((k for k, v in lists.items() if v == "path"), None)
+    slist = next((k for k, v in lists.items() if v == "seq"), None)
+    rlist = next((k for k, v in lists.items() if v == "pair"), None)
+    outs = []
+    for l in walk_own(run.node):
+        if not isinstance(l, ast.For) or l is loop:
+            continue
+        it = l.iter
+        names = None
+        if rlist is None and isinstance(it, ast.Call) and norm(it.func) == "zip" and [norm(a) for a in it.args] == [plist, slist] and isinstance(l.target, ast.Tuple) and len(l.target.elts) == 2:
+            names = (norm(l.target.elts[0]), norm(l.target.elts[1]))
+        elif rlist is not None and norm(it) == rlist:
+            if isinstance(l.target, ast.Tuple) and len(l.target.elts) == 2:
+                names = (norm(l.target.elts[0]), norm(l.target.elts[1]))
+            else:
+                names = (f"{norm(l.target)}[0]", f"{norm(l.target)}[1]")
+        elif rlist is None and norm(it) == slist and isinstance(l.target, ast.Name):
+            names = (None, norm(l.target))  # the sequences alone (a plain listing needs no path names)
+        if names is not None:
+            outs.append((l, names))
+    ctx.require_count("R14.4", len(outs), 1, run.where(), "output loops over the (path, sequence) pairs")
+    fasta_param = next((p_ for p_ in run.params if "fasta" in p_), None)
+    seen_modes = set()
+    badp = None
+    for l, (pn, sn) in outs:
+        outer = {canon_test(t, pol) for t, pol in guards_of(run.node, l)}
+        for p in enum_paths(l.body, rule="R14.4", where=run.where(l)):
+            tests = outer | {canon_test(t, pol) for t, pol in p.tests()}
+            mode = None
+            if fasta_param is not None:
+                if (fasta_param, True) in tests:
+                    mode = True
+                elif (fasta_param, False) in tests:
+                    mode = False
+            prints = [e.node.value.args[0] for e in p.events if e.kind == "stmt" and isinstance(e.node, ast.Expr) and isinstance(e.node.value, ast.Call) and isinstance(e.node.value.func, ast.Name) and e.node.value.func.id == "print" and e.node.value.args]
+            if p.term not in ("fall", "continue"):
+                badp = (p, "the output loop is left early")
+                break
+            shown = [norm(x) for x in prints]
+            if mode is None:
+                raise AnalysisError("R14.4", run.where(l), "cannot tell whether an output path is the FASTA or the plain one")
+            seen_modes.add(mode)
+            if mode and pn is None:
+                badp = (p, "FASTA output is written from the sequences alone: the header cannot name the path")
+                break
+            want = [f"f'>seq_{{{pn}}}'", sn] if mode else [sn]
+            if shown != want:
+                badp = (p, f"{'--fasta' if mode else 'plain'} output prints {shown} per path, expected {want}")
+                break
+        if badp:
+            break
+    ctx.check(badp is None and seen_modes == {True, False}, "R14.4", run.where(), "one output record per path, in input order (with --fasta a header line named after the path plus the sequence)", key_of(run, f"outputs:{badp[1] if badp else sorted(seen_modes)}"), **({"path": badp[0].show(), "why": badp[1]} if badp else {}))
